@@ -270,6 +270,9 @@ def _field_errors(fs, phys, cells, rows_data, where, is_index=False, name=None, 
         errs.append(RefError("WRONG_DATATYPE", SCHEMA, where, "dtype", None, phys))
     elif dt:
         errs.append(RefError("WRONG_DATATYPE", SCHEMA, where, "dtype", dt, [cells[i] for i in dt]))
+    if fs.get("checks") and phys == "datetime64[ns]" and fs.get("dtype") != "datetime64[ns]":
+        # check arguments are only rendered as timestamps for columns declared datetime
+        raise Undefined("checks on datetime data under a non-datetime declared dtype")
     for ci, cs in enumerate(fs.get("checks", [])):
         if not dtype_ok:
             # the check runs on data of another type: outcome is not defined by the docs; the verdict
@@ -309,7 +312,7 @@ def _index_errors(ixspec, ixtable, n, rows_data, rows_schema=None):
             e.where = ("<index>", e.where)
         return sub.errors
     if ixtable is not None and "multi" in ixtable:
-        return [RefError("MISMATCH_INDEX", DATA, "<index>", "index-on-multiindex")]
+        return [RefError("MISMATCH_INDEX", SCHEMA, "<index>", "index-on-multiindex")]
     it = ixtable or flat_default
     return _field_errors(ixspec, it["phys"], it["cells"], rows_data, "<index>", is_index=True,
                          name=it.get("name"), check_name=True, rows_schema=rows_schema)
